@@ -52,7 +52,9 @@ def main():
             out["apply_err"] = ap.stdout[-300:]
         r2 = sh("cargo test --offline --lib 2>&1 | grep -a -E '^test result|^error' | head -3")
         out["lib_with_patch"] = r2.stdout.strip()
-        r3 = sh(cmd)
+        # a demo of an API the change itself adds keeps that part behind `#[cfg(demo_new_api)]`: enabled on the patched run only
+        newapi = "demo_new_api" in json.dumps(meta) or "demo_new_api" in open(os.path.join(d, "demo.rs")).read()
+        r3 = sh(('RUSTFLAGS="--cfg demo_new_api" ' if newapi else "") + cmd)
         out["demo_with_patch"] = r3.stdout.strip()
         out["confirmed"] = bool(
             out["patch_applies"] and "test result: ok" in out["demo_clean"] and "72 passed; 0 failed" in out["lib_with_patch"] and ("FAILED" in out["demo_with_patch"] or "error" in out["demo_with_patch"]) and "error" not in out["lib_with_patch"]
